@@ -17,6 +17,37 @@ class Ctx:
         self.idx = Index(pkgs=pkgs)
         self.ce = ConstEval(self.idx)
         self.hier = Hier(self.idx)
+        from . import symreplay
+        symreplay.PURE_INLINER = self._pure_inline
+
+    def _pure_inline(self, call, frame):
+        """`self.m(args)` where m is a straight-line, side-effect-free method (local assignments + one
+        return): the returned expression with parameters and locals substituted"""
+        from .sym import substitute
+        cls = getattr(frame, 'cls', None)
+        if cls is None:
+            return None
+        if not call.func.attr.startswith('_') or call.func.attr.startswith('__'):
+            return None         # only private helpers: public API calls keep their name in the summaries
+        m = self.idx.find_method(cls, call.func.attr)
+        if m is None or m.is_async:
+            return None
+        body = [st for st in m.node.body if not (isinstance(st, ast.Expr) and isinstance(st.value, ast.Constant))]
+        if not body or not isinstance(body[-1], ast.Return) or body[-1].value is None:
+            return None
+        params = m.params[1:]
+        if len(call.args) != len(params):
+            return None
+        env = dict(zip(params, call.args))
+        for st in body[:-1]:
+            if isinstance(st, ast.Assign) and len(st.targets) == 1 and isinstance(st.targets[0], ast.Name):
+                env[st.targets[0].id] = substitute(st.value, env)
+            else:
+                return None
+        for n in ast.walk(body[-1].value):
+            if isinstance(n, ast.Call) and not (isinstance(n.func, ast.Name) and n.func.id in ('len', 'int', 'byte2int', 'min', 'max')):
+                return None
+        return substitute(body[-1].value, env)
 
     def nz(self, mod=None, cls=None):
         return Normaliser(self.ce, mod, cls)
@@ -63,14 +94,16 @@ def annotate(path, heap=True, versioned=()):
     def on(i, ev, st):
         if ev is None:
             return
-        if ev.kind in ('cond', 'call'):
+        if ev.kind == 'cond':
+            ev._sub = st.expr(ev.node, ev.frame, heap=heap, inline=True)
+        elif ev.kind == 'call':
             ev._sub = st.expr(ev.node, ev.frame, heap=heap)
         elif ev.kind == 'return' and ev.a is not None and ev.a is not _UNKNOWN:
-            ev._sub = st.expr(ev.a, ev.b or ev.frame, heap=heap)
+            ev._sub = st.expr(ev.a, ev.b or ev.frame, heap=heap, inline=True)
         elif ev.kind == 'assign':
             ev._subt = st.expr(ev.a, ev.frame, heap=False) if not isinstance(ev.a, ast.Name) else ev.a
             ret, rfr = ev.b
-            ev._sub = st.expr(ret, rfr, heap=heap) if (ret is not None and ret is not _UNKNOWN) else None
+            ev._sub = st.expr(ret, rfr, heap=heap, inline=True) if (ret is not None and ret is not _UNKNOWN) else None
     return replay(path, on, heap=heap, versioned=versioned)
 
 
@@ -152,3 +185,26 @@ def contradictory(path):
 def _mentions(text, name):
     import re
     return re.search(r'(?<![\w.])' + re.escape(name) + r'(?![\w])', text) is not None
+
+
+def removes_on_pickup(cx, fn, cls, table='self.transactions'):
+    """For a getter `fn(key)`: on every path that returns an entry of `table` the entry is removed
+    (pop, or subscript read followed by del).  -> (ok, why)"""
+    key = fn.params[1]
+    seen = False
+    for p in cx.enum(fn, cls, max_depth=0):
+        annotate(p, heap=False)
+        r = ret_expr(p)
+        if r is None or (isinstance(r, ast.Constant) and r.value is None):
+            continue
+        txt = U(r)
+        if table not in txt:
+            continue
+        seen = True
+        popped = isinstance(r, ast.Call) and callee_name(r) == 'pop' and U(r.func.value) == table and r.args and \
+            (U(r.args[0]) == key or (table.endswith('transactions') and len(r.args) >= 1))
+        deleted = any((e.kind == 'del' and table in U(e.node)) or
+                      (e.kind == 'call' and callee_name(e.node) in ('pop', 'popitem') and table in U(e.node)) for e in p.ev)
+        if not (popped or deleted):
+            return False, 'path returns %s without removing it' % txt
+    return seen, 'no path returns an entry' if not seen else 'ok'
